@@ -3,3 +3,4 @@ import PercevalModel.Found.LinAlg
 import PercevalModel.Found.Memo
 import PercevalModel.Proto
 import PercevalModel.Props.C01
+import PercevalModel.Found.SM
